@@ -371,7 +371,17 @@ def _match_d21(k, scenario, bad, events):
     return all(b[1] == 3 and b[2] == "result" for b in bad)
 
 
-MATCHERS = {"d21": _match_d21}
+def _match_d15(k, scenario, bad, events):
+    """D15: the rejected event is the FilteredApply of a witness scenario (constant / column copy under a filter)"""
+    if not str(scenario.get("note", "")).startswith("D15 witness"):
+        return False
+    steps = scenario.get("steps", [])
+    if len(steps) != 2 or steps[1].get("op") != "FilteredApply":
+        return False
+    return all(b[1] == 2 and b[2] == "result" for b in bad)
+
+
+MATCHERS = {"d21": _match_d21, "d15": _match_d15}
 
 
 def extract_scenarios(tlc_out, path, prop, mc):
